@@ -84,3 +84,17 @@ Lemma ex_busy :
 Proof. vm_compute. split; reflexivity. Qed.
 Lemma ex_reach : reach false two four r123 (run false two four [Commit; Ext 1 1 50] (init r123)).
 Proof. exists [Commit; Ext 1 1 50]. reflexivity. Qed.
+
+(* an instance that left the session and came back without any SQL (expunge ... add), then commit with expire_on_commit
+   in a transaction that never touched the database: the next read shows what the other connection wrote *)
+Lemma ex_reattach :
+  snd (step true two four (Read 1 1)
+         (run true two four [Expunge 1; Commit; Ext 1 1 50; Add 1; Commit] (init r123))) = RVal (Some 50) /\
+  snd (step true two four (Read 1 1)
+         (run true two four [Expunge 1; Commit; Ext 1 1 50] (init r123))) = RVal (Some 1).
+Proof. vm_compute. split; reflexivity. Qed.
+(* populate_existing from rows that carry only id and x: y loses its pending change and is re-read from the database *)
+Lemma ex_popex_cols :
+  snd (step false two four (Read 1 2)
+         (run false two four [Commit; Ext 1 2 50; SetA 1 2 77; PopExCols [1%nat]] (init r123))) = RVal (Some 50).
+Proof. vm_compute. reflexivity. Qed.
